@@ -279,9 +279,10 @@ def psfandgridconv(xi1, eta1, lat, lon, cm, conf_lat, ellipsoid=grs80, prj=utm):
     grid_conv = degrees(atan(abs(q / p))
                         + atan(abs(tan(conf_lat) * tan(long_diff))
                                / sqrt(1 + tan(conf_lat)**2)))
-    if cm > lon and lat < 0:
+    # west / east of the central meridian, also across the antimeridian
+    if sin(long_diff) < 0 and lat < 0:
         grid_conv = -grid_conv
-    elif cm < lon and lat > 0:
+    elif sin(long_diff) > 0 and lat > 0:
         grid_conv = -grid_conv
 
     return psf, grid_conv
